@@ -357,6 +357,7 @@ func settleProbe(e *Explorer, w *World, nd disputetypes.Dispute, l *famLedger, r
 			}
 		}
 		voterPaid := math.ZeroInt()
+		quietVoterFailures := 0
 		explained := explainedIn
 		for _, pt := range order {
 			group := []sdk.AccAddress{pt.addr}
@@ -413,6 +414,9 @@ func settleProbe(e *Explorer, w *World, nd disputetypes.Dispute, l *famLedger, r
 						zero = false
 					}
 				}
+				if okCount == 0 && zero {
+					quietVoterFailures++
+				}
 				if okCount == 0 && rc != "failed" && voterPot.IsPositive() && !zero {
 					c2 := "other"
 					j := strings.Join(errs, "; ")
@@ -468,6 +472,18 @@ func settleProbe(e *Explorer, w *World, nd disputetypes.Dispute, l *famLedger, r
 						explained = explained.Add(math.NewIntFromBigInt(d).Sub(got))
 					}
 				}
+			}
+		}
+		// a pot the chain set aside for voters has to be claimable by somebody
+		if cd, err := f.App.DisputeKeeper.Disputes.Get(f.Ctx, nd.DisputeId); err == nil && rc != "failed" && cd.VoterReward.GT(math.NewInt(int64(len(parties)))) && voterPaid.IsZero() {
+			nv := 0
+			for _, pt := range parties {
+				if pt.voter {
+					nv++
+				}
+			}
+			if nv > 0 && quietVoterFailures == nv {
+				fail("voter-pot-unclaimable", fmt.Sprintf("the dispute records a voters' reward of %s, %d voters of its rounds tried to claim and none was paid", cd.VoterReward, nv))
 			}
 		}
 		if voterPaid.GT(voterPot.AddRaw(int64(len(parties)))) {
